@@ -138,7 +138,7 @@ def s1_design(tier, seed):
 # ----------------------------------------------------------------------------- schedules
 
 def plan(**kw):
-    d = dict(start=0, afterNotary=False, pauses=[], cancels=[])
+    d = dict(start=0, afterNotary=False, afterBoot=0, pauses=[], cancels=[])
     d.update(kw)
     return d
 
@@ -172,6 +172,10 @@ def scenarios(tier, seed):
     def absent(n, who):
         return [plan(afterNotary=(i in who)) for i in range(n)]
 
+    # trap for the witness-order defect: the signatures arrive in descending index order (member 2 at once, member 1 fifteen
+    # blocks after the shared data appeared, member 3 absent), so the leader's map holds them in that insertion order and only
+    # a lucky rotation of the map iteration (1/8) sorts them
+    add(4, "trap:witness-order", [plan(), plan(afterBoot=15), plan(), plan(afterNotary=True)], goal="notary")
     if tier == "quick":
         add(1, "plain")
         add(2, "plain")
